@@ -144,10 +144,11 @@ Inductive op :=
 | OGetItem (f : gform)
 | OIterBuild (how : buildkind) (sel : list nat)   (* cls.from_images / collate_samples of [list(cur)[k] for k in sel] *)
 | OIterPick (k : nat)                              (* list(cur)[k] *)
-| ONarrowM (dim : Z) (start len : nat)             (* ImageBatch.narrow method (batch and channel dimension) *)
+| ONarrowM (dim : Z) (start : Z) (len : nat)       (* ImageBatch.narrow method (batch and channel dimension); start may be negative *)
 | OCopy (c : copykind)
 | OAppend                                          (* cur.append(other) *)
-| OToBatch.                                        (* Image.batch() *)
+| OToBatch                                         (* Image.batch() *)
+| OAsFlows.                                        (* FlowFields(cur): the constructor applied to a batch *)
 
 Inductive fclass := FCat | FSplit | FSplitSizes | FTensorSplit | FClone | FGridSample | FGetItem | FOther.
 Definition class_of (o : op) : fclass :=
@@ -165,6 +166,10 @@ Definition class_of (o : op) : fclass :=
 (* data-level semantics (torch on plain tensors): shapes and provenance                           *)
 (* ---------------------------------------------------------------------------------------------- *)
 Definition nth_shape (shs : list shape) (j : nat) : shape := nth j shs [].
+(* torch.Tensor.narrow: start in [-size, size], counted from the end when negative *)
+Definition norm_start (size : nat) (st : Z) : option nat :=
+  if ((- Z.of_nat size <=? st) && (st <=? Z.of_nat size))%Z
+  then Some (Z.to_nat (if (st <? 0)%Z then (st + Z.of_nat size)%Z else st)) else None.
 
 (* broadcasting of two shapes, aligned at the right *)
 Fixpoint bcast_rev (a b : list nat) : option (list nat) :=
@@ -300,7 +305,7 @@ Definition data_sem (o : op) (shs : list shape) : dres :=
                    end
       end in
   match o with
-  | OUnary _ | OCopy _ => DOne (mkD s (ident_src 0 n0))
+  | OUnary _ | OCopy _ | OAsFlows => DOne (mkD s (ident_src 0 n0))
   | OBinary =>
       let s1 := nth_shape shs 1 in
       match bcast s s1 with
@@ -322,13 +327,24 @@ Definition data_sem (o : op) (shs : list shape) : dres :=
       | None => DErr EIndex
       | Some nd => DOne (mkD s (if nd =? 0 then map (fun i => all_src 0 (S i)) (seq 0 n0) else ident_src 0 n0))
       end
-  | ONarrow z st len | ONarrowM z st len =>
+  | ONarrow z st len =>
       match nd_of z with
       | None => DErr EIndex
       | Some nd => if st + len <=? nth nd s 0
                    then DOne (mkD (set_nth s nd len)
                                   (if nd =? 0 then map (fun i => [(0, st + i)]) (seq 0 len) else ident_src 0 n0))
                    else DErr ERuntime
+      end
+  | ONarrowM z stz len =>
+      match nd_of z with
+      | None => DErr EIndex
+      | Some nd => match norm_start (nth nd s 0) stz with
+                   | None => DErr EIndex
+                   | Some st => if st + len <=? nth nd s 0
+                                then DOne (mkD (set_nth s nd len)
+                                               (if nd =? 0 then map (fun i => [(0, st + i)]) (seq 0 len) else ident_src 0 n0))
+                                else DErr ERuntime
+                   end
       end
   | OSelect z i =>
       match nd_of z with
@@ -800,7 +816,6 @@ Definition getitem_batch (fl : option axes) (sh : shape) (gs : list gid) (f : gf
 
 (* the whole user-visible operation on [cur; other...] *)
 Definition run_op (o : op) (args : list tval) : ores :=
-  let _ := gaxes in     (* Axes.from_grid: no longer consulted (from_images passes the axes on); kept in the signature *)
   let cur := nth 0 args (mkT [] TPlain) in
   let sh := t_shape cur in
   match o with
@@ -832,14 +847,17 @@ Definition run_op (o : op) (args : list tval) : ores :=
       | _, DErr e => OErr e
       | _, _ => OErr EType
       end
-  | ONarrowM z st len =>
-      (* ImageBatch.narrow: dim and start normalised (st is the start after `if start < 0: start += self.shape[dim]`);
+  | ONarrowM z stz len =>
+      (* ImageBatch.narrow: `if dim < 0: dim += self.ndim`, `if start < 0: start += self.shape[dim]`;
          dim == 0 -> grid[start : start + length]; dim > 1 -> every grid narrowed (not modelled); dim == 1 leaves the
          grids as they are *)
       match t_kind cur, data_sem o [sh] with
       | TBatch fl gs, DOne d =>
           let z' := if (z <? 0)%Z then (z + Z.of_nat (ndim sh))%Z else z in
-          if (z' =? 0)%Z then one_kind d (make_instance fl (d_shape d) (py_slice gs st (st + len)))
+          if (z' =? 0)%Z then match norm_start (nth 0 sh 0) stz with
+                              | Some st => one_kind d (make_instance fl (d_shape d) (py_slice gs st (st + len)))
+                              | None => OErr EIndex
+                              end
           else if (1 <? z')%Z then OErr ERuntime
           else one_kind d (make_instance fl (d_shape d) gs)
       | _, DErr e => OErr e
@@ -861,6 +879,21 @@ Definition run_op (o : op) (args : list tval) : ores :=
       match t_kind cur, data_sem o [sh] with
       | TSingle fl g, DOne d => one_kind d (mk_batch fl (d_shape d) [g])
       | _, _ => OErr EType
+      end
+  | OAsFlows =>
+      (* FlowFields.__init__(data): axes = data.axes() if data is a FlowFields; grid = data.grids(); ImageBatch.__init__ /
+         grid_ (ndim >= 4, every grid of the data's spatial shape -- the NUMBER of grids is not checked); nchannels == sdim;
+         axes default Axes.from_grid(self._grid[0]).  Only batches are modelled (a plain tensor gets a new grid). *)
+      match t_kind cur with
+      | TBatch fl gs =>
+          if (ndim sh <? 4) || negb (forallb (fun g => shape_eqb (gshape g) (skipn 2 sh)) gs) || negb (nth 1 sh 0 =? ndim sh - 2)
+          then OErr EValue
+          else match fl, gs with
+               | Some ax, _ => OOne (mkO sh (TBatch (Some ax) gs) (ident_src 0 (nent sh)))
+               | None, g0 :: _ => OOne (mkO sh (TBatch (Some (gaxes g0)) gs) (ident_src 0 (nent sh)))
+               | None, [] => OErr EIndex
+               end
+      | _ => OErr EType
       end
   | _ =>
       match choose_disp (map t_kind args) with
